@@ -3,7 +3,7 @@ import hashlib, json, os, re, shutil, subprocess, sys, time, fcntl
 
 import gen, render, dumpparse
 
-VERIF = "/verif"
+VERIF = os.environ.get("VERIF_ROOT") or os.path.dirname(os.path.dirname(os.path.abspath(__file__)))
 REPO = os.environ.get("VERIF_REPO", "/repo")
 LEAN_DIR = os.path.join(VERIF, "lean")
 WORK_ROOT = os.environ.get("VERIF_WORK", os.path.join(VERIF, "work"))
